@@ -18,7 +18,7 @@ Oracle rules (written from the property statement and the docstrings of object.p
   * anchors (PositionConstraint, partial_real_position): realised anchor within half a cell of the requested one
     ("nearest-edge snapping"); half of the largest cell on non-uniform axes (conservative).  partial_real_position is not
     one of the five constraint kinds of the statement: it is judged only when it is the sole positional information of an
-    object whose size is fixed independently; otherwise a mismatch is reported as "obs:" (counted, not a violation)
+    object with an own (static) size; otherwise a mismatch is reported as "obs:" (counted, not a violation)
   * SizeExtensionConstraint / RealCoordinateConstraint: the side index is *a* nearest edge of the requested coordinate
   * GridCoordinateConstraint: exact
   * an axis on which an object has no own size/position and no constraint spans the volume
@@ -406,11 +406,9 @@ def judge(system, slices):
                 c = 0.5 * (E[a][lo] + E[a][hi])
                 t = o["rpos"][a] + 0.5 * (E[a][0] + E[a][-1])
                 if abs(c - t) > half(a):
-                    # judged only when the centre is the sole positional information and the size is fixed independently
+                    # judged only when the centre is the sole positional information and the object has an own static size
                     # (then only the interval search of bounds_for_center decides); otherwise an observation
-                    sized = o["gshape"][a] is not None or o["rshape"][a] is not None or any(
-                        c2["k"] == "size" and c2["obj"] == nm and a in c2["axes"] for c2 in system["constraints"]
-                    )
+                    sized = o["gshape"][a] is not None or o["rshape"][a] is not None
                     positioned = any(
                         c2["obj"] == nm and ((c2["k"] in ("pos", "gc", "rc") and a in c2["axes"]) or (c2["k"] == "ext" and c2["axis"] == a))
                         for c2 in system["constraints"]
